@@ -41,3 +41,8 @@ Theorem C20_target_total : forall (w : world) (univ : list (wN w)),
   (forall n, In n univ) -> forall t sc st, exists r s', r <> RFuel /\ target w (S (List.length univ)) t sc ([], st) = (r, s').
 Proof. exact target_total. Qed.
 Print Assumptions C20_target_total.
+(* and the outcome does not depend on how much fuel a caller supplies above what was needed *)
+Theorem C20_target_fuel_independent : forall (w : world) fuel k t sc s r s',
+  target w fuel t sc s = (r, s') -> r <> RFuel -> target w (k + fuel) t sc s = (r, s').
+Proof. exact target_result_fuel_independent. Qed.
+Print Assumptions C20_target_fuel_independent.
